@@ -11,6 +11,9 @@ Part 2  a fragment of the language (literals, globals, `+`, list/map/set literal
         `print`) with the compiler's emission order for map literals under an adversary,
         the constant pool / symbol table, and the VM on the emitted code
 Part 3  the reviewed classification of every map-range site of the source tree
+Part 4  rendering an object graph as text (print, printf, sprintf, errorf, string(), string
+        interpolation, error()): the ADDRESS of every allocation is a second adversarial
+        parameter; the reviewed table of every object type and of PrintableValue's dispatch
 
 Core Lean only.
 -/
@@ -545,6 +548,338 @@ def evalCode (c : Code) : (Except String Val) × List String :=
 /-- evaluation = compile, then run in a fresh VM -/
 def eval (globalNames : List String) (p : Prog) : (Except String Val) × List String :=
   evalCode (compile globalNames p)
+
+/-! ## Part 4 — rendering an object graph; the address of every allocation is the adversary's
+
+Every object is a Go allocation and Go's `fmt` prints the address of a pointer, channel or
+func it is handed.  In the model every object carries the address the adversary chose for it
+(`addr`); the theorems in `Props.lean` say for which rendering routes the text does not
+depend on it.  Scalar payloads arrive already formatted (by Go's strconv/fmt for a value
+without pointers): what is modelled is the DISPATCH (String() / Inspect() fallback /
+Interface()) and the COMPOSITION of the texts of the objects an object refers to. -/
+
+/-- every type of package object that implements `object.Object` (the Go type names), plus
+    `pair`: one `"key": value` entry of a map (not an object; lets a map be a node with kids) -/
+inductive Kind where
+  | Bool | Buffer | Builtin | Byte | ByteSlice | Cell | Chan | Color | DirEntry | DynamicAttr
+  | Entry | Error | File | FileInfo | FileIter | FileMode | Float | FloatSlice | Function
+  | GoField | GoMethod | GoType | Int | IntIter | List | ListIter | Map | MapIter | Module
+  | NilType | Partial | Proxy | Set | SetIter | SliceIter | String | Thread | Time
+  | pair
+  deriving DecidableEq, Repr
+
+def Kind.goName : Kind → _root_.String
+  | .Bool => "Bool" | .Buffer => "Buffer" | .Builtin => "Builtin" | .Byte => "Byte"
+  | .ByteSlice => "ByteSlice" | .Cell => "Cell" | .Chan => "Chan" | .Color => "Color"
+  | .DirEntry => "DirEntry" | .DynamicAttr => "DynamicAttr" | .Entry => "Entry" | .Error => "Error"
+  | .File => "File" | .FileInfo => "FileInfo" | .FileIter => "FileIter" | .FileMode => "FileMode"
+  | .Float => "Float" | .FloatSlice => "FloatSlice" | .Function => "Function" | .GoField => "GoField"
+  | .GoMethod => "GoMethod" | .GoType => "GoType" | .Int => "Int" | .IntIter => "IntIter"
+  | .List => "List" | .ListIter => "ListIter" | .Map => "Map" | .MapIter => "MapIter"
+  | .Module => "Module" | .NilType => "NilType" | .Partial => "Partial" | .Proxy => "Proxy"
+  | .Set => "Set" | .SetIter => "SetIter" | .SliceIter => "SliceIter" | .String => "String"
+  | .Thread => "Thread" | .Time => "Time" | .pair => "pair"
+
+def allKinds : List Kind :=
+  [.Bool, .Buffer, .Builtin, .Byte, .ByteSlice, .Cell, .Chan, .Color, .DirEntry, .DynamicAttr,
+   .Entry, .Error, .File, .FileInfo, .FileIter, .FileMode, .Float, .FloatSlice, .Function,
+   .GoField, .GoMethod, .GoType, .Int, .IntIter, .List, .ListIter, .Map, .MapIter, .Module,
+   .NilType, .Partial, .Proxy, .Set, .SetIter, .SliceIter, .String, .Thread, .Time]
+
+/-- the reviewed table (`Ties.object_types_reviewed` re-checks it against the source on every
+    run): (type, has a `String() string` method, fmt operands inside `Inspect()` that could
+    print an address, the same inside `String()`).  Read at the pinned commit:
+    * no `Inspect()` formats a pointer, channel, func or interface operand;
+    * `Cell.String` formats the held object with `%s` (address-free iff that object has a
+      `String()` method — `fmtS` below; cells are never first-class script values);
+    * `Proxy.String` formats the host's Go value with `%v` (the property excludes the printed
+      form of host-supplied Go pointers) and its `reflect.Type` with `%s` (a type name);
+    * `DirEntry.String` formats the `os.DirEntry` the OS layer supplied with `%v`
+      (a struct of name and mode, no address: probed by the harness under a virtual OS);
+    * Chan, Entry, Partial, Thread, GoField, GoMethod, GoType have no `String()`: every
+      route that prints them must fall back to `Inspect()`. -/
+def objTypes : List (String × Bool × String × String) := [
+  ("Bool", true, "", ""),
+  ("Buffer", true, "", ""),
+  ("Builtin", true, "", ""),
+  ("Byte", true, "", ""),
+  ("ByteSlice", true, "", ""),
+  ("Cell", true, "", "iface:%s"),
+  ("Chan", false, "", ""),
+  ("Color", true, "", ""),
+  ("DirEntry", true, "", "iface:%v"),
+  ("DynamicAttr", true, "", ""),
+  ("Entry", false, "", ""),
+  ("Error", true, "", ""),
+  ("File", true, "", ""),
+  ("FileInfo", true, "", ""),
+  ("FileIter", true, "", ""),
+  ("FileMode", true, "", ""),
+  ("Float", true, "", ""),
+  ("FloatSlice", true, "", ""),
+  ("Function", true, "", ""),
+  ("GoField", false, "", ""),
+  ("GoMethod", false, "", ""),
+  ("GoType", false, "", ""),
+  ("Int", true, "", ""),
+  ("IntIter", true, "", ""),
+  ("List", true, "", ""),
+  ("ListIter", true, "", ""),
+  ("Map", true, "", ""),
+  ("MapIter", true, "", ""),
+  ("Module", true, "", ""),
+  ("NilType", true, "", ""),
+  ("Partial", false, "", ""),
+  ("Proxy", true, "", "iface:%s,iface:%v"),
+  ("Set", true, "", ""),
+  ("SetIter", true, "", ""),
+  ("SliceIter", true, "", ""),
+  ("String", true, "", ""),
+  ("Thread", false, "", ""),
+  ("Time", true, "", "")
+]
+
+/-- does the type implement `fmt.Stringer`?  (looked up in the reviewed table) -/
+def hasString (k : Kind) : Bool :=
+  match objTypes.find? (fun r => r.1 == k.goName) with
+  | some r => r.2.1
+  | none => false
+
+/-- `object.PrintableValue`, case by case as the extractor renders it (tie:
+    `Ties.printable_dispatch_reviewed`): primitives travel as their Go value, a time as its
+    RFC3339 text, every other object as `String()` if it has one and `Inspect()` otherwise -/
+def printableCases : List (String × String) := [
+  ("*String,*Int,*Float,*Byte,*Error,*Bool", "obj.Interface()"),
+  ("*Time", "obj.Value().Format(time.RFC3339)"),
+  ("fmt.Stringer", "obj.String()"),
+  ("default", "obj.Inspect()")
+]
+
+/-- which functions hand script values to a fmt verb, and how (tie: `Ties.format_sites_reviewed`).
+    `builtins.Sprintf` is shadowed in the default globals by `fmt.Sprintf`; `builtins.Error`
+    (the `error(fmt, …)` builtin) is reachable and hands over `Interface()` — `ifaceV` below. -/
+def formatSitesReviewed : List (String × String) := [
+  ("builtins.Error", "Interface"),
+  ("builtins.Sprintf", "Interface"),
+  ("errors.getFormatAndValues", "PrintableValue"),
+  ("fmt.Errorf", "PrintableValue"),
+  ("fmt.Printf", "PrintableValue"),
+  ("fmt.Println", "PrintableValue"),
+  ("fmt.Sprintf", "PrintableValue")
+]
+
+/- an object as the renderer sees it: kind, address of the allocation (adversary), scalar
+   payloads, the objects it refers to.  `txt`: the payload as `Inspect()` shows it (already
+   quoted where the code uses `%q`); `raw`: the payload as `String()`/`Interface()` under `%v`
+   show it where that differs (string value, error message, `func f() { ... }`,
+   `byte_slice([1 2])`, `1e+06`, RFC3339 time); `aux`: what `builtins.String` extracts
+   (buffer contents, the bytes of a byte_slice). -/
+mutual
+  inductive RObj where
+    | mk (kind : Kind) (addr : Nat) (txt raw aux : String) (kids : RObjs)
+  inductive RObjs where
+    | nil
+    | cons (o : RObj) (rest : RObjs)
+end
+
+def RObj.kind : RObj → Kind | .mk k _ _ _ _ _ => k
+def RObj.addr : RObj → Nat | .mk _ a _ _ _ _ => a
+def RObj.raw : RObj → String | .mk _ _ _ r _ _ => r
+def RObj.aux : RObj → String | .mk _ _ _ _ x _ => x
+def RObj.kids : RObj → RObjs | .mk _ _ _ _ _ ks => ks
+
+def RObjs.toList : RObjs → List RObj
+  | .nil => []
+  | .cons o r => o :: r.toList
+
+/- the same graph with every address forgotten -/
+mutual
+  def RObj.eraseAddr : RObj → RObj
+    | .mk k _ t r x kids => .mk k 0 t r x kids.eraseAddr
+  def RObjs.eraseAddr : RObjs → RObjs
+    | .nil => .nil
+    | .cons o r => .cons o.eraseAddr r.eraseAddr
+end
+
+def joinWith (sep : String) : List String → String
+  | [] => ""
+  | [x] => x
+  | x :: y :: r => x ++ sep ++ joinWith sep (y :: r)
+
+/-- what Go's fmt prints for a pointer, channel or func: text that contains the address -/
+def goPtr (a : Nat) : String := "0x" ++ String.ofList (Nat.toDigits 16 a)
+
+/-- how `Inspect()` frames a kind -/
+inductive Frame where
+  /-- the payload as is: `true`, `5`, `"s"`, `nil`, `func f(a) { … }`, `slice_iter(pos=0 size=2)`,
+      `file_info(…)`, `dir_entry(…)`, a file mode, a color -/
+  | leaf
+  /-- `name(payload)`: `chan(2)`, `builtin(len)`, `module(math)`, `error("m")`, `buffer("x")` … -/
+  | wrapTxt (name : String)
+  /-- opener, the referenced objects' own `Inspect()` joined with `, `, closer -/
+  | wrapKids (l r : String)
+
+def Kind.frame : Kind → Frame
+  | .Chan => .wrapTxt "chan" | .Builtin => .wrapTxt "builtin" | .Module => .wrapTxt "module"
+  | .Error => .wrapTxt "error" | .Buffer => .wrapTxt "buffer" | .ByteSlice => .wrapTxt "byte_slice"
+  | .FloatSlice => .wrapTxt "float_slice" | .Time => .wrapTxt "time" | .IntIter => .wrapTxt "int_iter"
+  | .DynamicAttr => .wrapTxt "dynamic_attr" | .GoType => .wrapTxt "go_type"
+  | .GoField => .wrapTxt "go_field" | .GoMethod => .wrapTxt "go_method" | .File => .wrapTxt "file"
+  | .List => .wrapKids "[" "]" | .Set => .wrapKids "{" "}" | .Map => .wrapKids "{" "}"
+  | .ListIter => .wrapKids "list_iter(" ")" | .MapIter => .wrapKids "map_iter(" ")"
+  | .SetIter => .wrapKids "set_iter(" ")" | .FileIter => .wrapKids "file_iter(" ")"
+  | .Entry => .wrapKids "iter_entry(" ")" | .Thread => .wrapKids "thread(" ")"
+  | _ => .leaf
+
+/-- `Inspect()` of one node given the `Inspect()` texts of the objects it refers to -/
+def inspectNode (k : Kind) (txt : String) (ks : List String) : String :=
+  match k with
+  | .pair => txt ++ ": " ++ joinWith ", " ks
+  | .Partial =>
+    match ks with
+    | [] => "partial(, )"
+    | f :: as => "partial(" ++ f ++ ", " ++ joinWith ", " as ++ ")"
+  | _ =>
+    match k.frame with
+    | .leaf => txt
+    | .wrapTxt name => name ++ "(" ++ txt ++ ")"
+    | .wrapKids l r => l ++ joinWith ", " ks ++ r
+
+/-- the kinds whose `String()` is not their `Inspect()` but the raw payload -/
+def strIsRaw : Kind → Bool
+  | .String | .Error | .Function | .ByteSlice | .DirEntry => true
+  | _ => false
+
+/-- the two texts every object offers: `insp` = `Inspect()`; `fmtS` = what `fmt.Sprintf("%s", obj)`
+    gives (the object's `String()` if it has one, else Go's rendering of the raw pointer) -/
+structure Rendered where
+  insp : String
+  fmtS : String
+
+/-- `Inspect()` of one node given what the objects it refers to offer.
+    `Cell.Inspect = Cell.String = fmt.Sprintf("cell(%s)", *c.value)` -/
+def nodeInsp (k : Kind) (txt : String) (ks : List Rendered) : String :=
+  if k = .Cell then "cell(" ++ joinWith ", " (ks.map (·.fmtS)) ++ ")"
+  else inspectNode k txt (ks.map (·.insp))
+
+mutual
+  def render : RObj → Rendered
+    | .mk k a txt raw _ kids =>
+      let ks := renderAll kids
+      ⟨nodeInsp k txt ks,
+       if hasString k then (if strIsRaw k then raw else nodeInsp k txt ks) else goPtr a⟩
+  def renderAll : RObjs → List Rendered
+    | .nil => []
+    | .cons o r => render o :: renderAll r
+end
+
+/-- `obj.Inspect()`: the evaluation result as the embedder sees it, items inside containers,
+    the fallback of every other route -/
+def RObj.inspect (o : RObj) : String := (render o).insp
+
+/-- `obj.String()` (meaningful for the kinds that have the method) -/
+def RObj.strM (o : RObj) : String := if strIsRaw o.kind then o.raw else o.inspect
+
+/-- the kinds `PrintableValue` hands to fmt as their Go value (`obj.Interface()`) -/
+def isPrimitive : Kind → Bool
+  | .String | .Int | .Float | .Byte | .Error | .Bool => true
+  | _ => false
+
+/-- **Impl** `object.PrintableValue` followed by the verb `%v`/`%s` (print, printf, sprintf,
+    errorf, fmt.*, errors.new): String() → Inspect() fallback -/
+def RObj.printable (o : RObj) : String :=
+  if isPrimitive o.kind then o.raw
+  else if o.kind = .Time then o.raw
+  else if hasString o.kind then o.strM
+  else o.inspect
+
+/-- the variant WITHOUT the `Inspect()` fallback (the object itself is handed to fmt): kept for
+    `printable_without_fallback_counterexample` -/
+def RObj.printableNoFallback (o : RObj) : String :=
+  if isPrimitive o.kind then o.raw
+  else if o.kind = .Time then o.raw
+  else if hasString o.kind then o.strM
+  else goPtr o.addr
+
+/-- **Impl** `builtins.String` (`string(x)`): buffer and byte_slice yield their bytes, a string
+    itself, then String() → Inspect() fallback.  (A file is read; not modelled.) -/
+def RObj.stringBuiltin (o : RObj) : String :=
+  if o.kind = .Buffer || o.kind = .ByteSlice then o.aux
+  else if hasString o.kind then o.strM
+  else o.inspect
+
+/-- **Impl** string interpolation (`BuildString`): an error value yields its message, a string
+    itself, everything else `Inspect()` -/
+def RObj.interp (o : RObj) : String :=
+  if o.kind = .Error || o.kind = .String then o.raw else o.inspect
+
+/- **Impl** the `error(fmt, args…)` builtin (and `builtins.Sprintf`): every argument travels as
+   `obj.Interface()` and is rendered by Go's `%v`.  Function, module, thread, nil: `<nil>`;
+   list and set: `[a b]`; map: `map[k:v …]` (keys sorted by fmt); iterator entry:
+   `map[key:K value:V]`; a cell: what it holds; channel: the Go channel, builtin: the Go func,
+   file: the `*os.File`, partial: the wrapped function object, proxy/Go reflection wrappers: a
+   Go pointer — fmt prints an ADDRESS for all of these.  Time, buffer, slices, iterators,
+   dynamic attributes: not rendered on this route by the harness (their Go value's `%v` text
+   would be a fourth payload); the model returns `raw`. -/
+mutual
+  def ifaceV : RObj → String
+    | .mk k a _ raw _ kids =>
+      match k with
+      | .NilType | .Function | .Module | .Thread => "<nil>"
+      | .List | .Set => "[" ++ joinWith " " (ifaceAll kids) ++ "]"
+      | .Map => "map[" ++ joinWith " " (ifaceAll kids) ++ "]"
+      | .pair => raw ++ ":" ++ joinWith " " (ifaceAll kids)
+      | .Entry =>
+        match ifaceAll kids with
+        | [key, v] => "map[key:" ++ key ++ " value:" ++ v ++ "]"
+        | _ => "map[]"
+      | .Cell =>
+        match ifaceAll kids with
+        | [v] => v
+        | _ => "<nil>"
+      | .Chan | .Builtin | .File | .Partial | .Proxy | .GoType | .GoField | .GoMethod => goPtr a
+      | _ => raw
+  def ifaceAll : RObjs → List String
+    | .nil => []
+    | .cons o r => ifaceV o :: ifaceAll r
+end
+
+/-- the kinds whose `Interface()` is a Go pointer, channel or func -/
+def rawAddrKind : Kind → Bool
+  | .Chan | .Builtin | .File | .Partial | .Proxy | .GoType | .GoField | .GoMethod => true
+  | _ => false
+
+/- guard of the finding C05-error-format-raw-go-value: no object whose `Interface()` is a Go
+   pointer, channel or func anywhere in the graph -/
+mutual
+  def RObj.noRawAddr : RObj → Bool
+    | .mk k _ _ _ _ kids => !rawAddrKind k && kids.noRawAddr
+  def RObjs.noRawAddr : RObjs → Bool
+    | .nil => true
+    | .cons o r => o.noRawAddr && r.noRawAddr
+end
+
+/- guard for `Inspect()`/`String()`: every cell holds an object that has a `String()` method
+   (what `%s` needs to stay clear of the pointer) -/
+mutual
+  def RObj.cellsOk : RObj → Bool
+    | .mk k _ _ _ _ kids => (k != .Cell || kids.allStringers) && kids.cellsOk
+  def RObjs.cellsOk : RObjs → Bool
+    | .nil => true
+    | .cons o r => o.cellsOk && r.cellsOk
+  def RObjs.allStringers : RObjs → Bool
+    | .nil => true
+    | .cons o r => hasString o.kind && r.allStringers
+end
+
+/- no cell anywhere: what holds for every value a script can get hold of -/
+mutual
+  def RObj.cellFree : RObj → Bool
+    | .mk k _ _ _ _ kids => k != .Cell && kids.cellFree
+  def RObjs.cellFree : RObjs → Bool
+    | .nil => true
+    | .cons o r => o.cellFree && r.cellFree
+end
 
 /-! ## Part 3 — the reviewed classification of every map-range site -/
 
